@@ -1715,6 +1715,9 @@ func (n *node) spawn(factory gen.ProcessFactory, options gen.ProcessOptionsExtra
 				n.sendExitMessage(p.pid, pid, messageExit)
 			}
 		}
+		// the same for the children that have linked themselves with this
+		// process (LinkParent option only, like the workers of act.Pool)
+		n.RouteTerminatePID(p.pid, err)
 
 		// terminate meta process that spawned during initialization
 
